@@ -144,10 +144,13 @@ impl FromStr for Machine {
         }
         let compressed = compressed.unwrap();
         // decompress, but scared of exceeding memory limits / zlib bombs
-        let mut decoder = ZlibDecoder::new(compressed.as_slice());
-        let mut buf = vec![0; MAX_DECOMPRESSED_SIZE];
+        let decoder = ZlibDecoder::new(compressed.as_slice());
+        let mut buf = Vec::new();
+        // a single read() may return only part of the payload, so read until
+        // EOF, but never more than the limit
         let bytes_read = decoder
-            .read(&mut buf)
+            .take(MAX_DECOMPRESSED_SIZE as u64)
+            .read_to_end(&mut buf)
             .map_err(|e| Error::Machine(e.to_string()))?;
 
         // With binencode, note that "The size of the encoded object will be the
